@@ -225,7 +225,7 @@ def list_read(ctx):
 
 @rule('MK-HASH', {
     'C15': 'a node is identified by the hash of its children and its value: two different nodes must not share an identity, or the DAG is not a function of the node set',
-}, floor=1)
+}, floor=2)
 def mk_hash(ctx):
     """Node::hash feeds every child hash and the value into the hasher and returns the finalised digest."""
     facts = ctx.facts
@@ -268,6 +268,21 @@ def mk_hash(ctx):
     if not fin or not rc.must_pass(fin):
         errs.append('the digest is not finalised')
     ctx.check(not errs, 'hash', body, 'digest over every child and the value', errs[0] if errs else '')
+    # the blanket Sha3Hash impl for byte-like values: the digest is updated with the value's own bytes
+    bl = [b for b in facts.bodies if b.impl_trait and b.impl_trait.endswith('merkle_reg::Sha3Hash') and b.name == 'hash' and not b.derived]
+    if not bl:
+        ctx.shape('blanket', None, 'no Sha3Hash impl found')
+    for b0 in bl:
+        b = facts._v(b0)
+        ctx.analysed.add(b.key)
+        bit = interp(facts, b)
+        brc = Reach(facts, b, Evaluator(facts))
+        ups = [bb for bb, c in bit.calls.items() if call_name(c.term) == 'update' and len(c.args) == 2
+               and param_path(versionless(c.args[0].val)) == (2, ())
+               and any(param_path(versionless(st)) == (1, ()) for st in subterms(drop_lv(c.args[1].val)))]
+        ctx.check(bool(ups) and brc.must_pass(ups), 'blanket/' + (b0.impl_self or 'T').replace('crdts::', ''), b, 'hasher.update(bytes of self) on every path',
+                  'the Sha3Hash impl does not feed the bytes of the value into the hasher on every path: different values get the same '
+                  'node hash')
 
 
 def _is_empty_ctor(t, depth=0, facts=None):
@@ -630,10 +645,13 @@ ACC_SPEC = [
     ('crdts::merkle_reg::Content', 'is_empty', 'is_empty', 'nodes'), ('crdts::merkle_reg::Content', 'values', 'walk', 'nodes'),
     ('crdts::merkle_reg::Content', 'nodes', 'walk', 'nodes'), ('crdts::merkle_reg::Content', 'hashes', 'walk', 'nodes'),
     ('crdts::merkle_reg::Content', 'hashes_and_nodes', 'walk', 'nodes'),
+    (GLIST, 'read', 'walk', 'list'), (GLIST, 'read_into', 'walk', 'list'),
+    (ORSWOT, 'clock', 'field', 'clock'),
 ]
+NEW_EMPTY = [ORSWOT, MAP, MVREG, LIST, GLIST, MERKLE, VCLOCK, GCOUNTER, PNCOUNTER, GSET]
 
 
-@rule('ACC-PLAIN', floor=22, **read_attribution({}, module=None))   # what a replica shows: served per type through READ_OBSERVES
+@rule('ACC-PLAIN', floor=37, **read_attribution({}, module=None))   # what a replica shows: served per type through READ_OBSERVES
 def acc_plain(ctx):
     """Plain read accessors delegate to the container field they describe: len / is_empty of that field, a walk over all of it,
     its first / last element, the n-th element of the walk, the lookup of the given key."""
@@ -680,4 +698,32 @@ def acc_plain(ctx):
                 if rev:
                     end = 'last' if end == 'first' else 'first'
                 ok = end == kind and (direct or over_field(src, allow_rev=True))
+        elif kind == 'field':
+            v = versionless(r)
+            while v[0] == 'call' and call_name(v) in ('clone', 'to_owned') and len(v[2]) == 1:
+                v = versionless(v[2][0])
+            ok = v == ('field', ('param', 1), field)
         ctx.check(ok, short, body, '%s of self.%s' % (kind, field), '%s is %s, expected the %s of self.%s' % (short, fmt(r, 5), kind, field))
+    # constructors: `new()` is the empty replica
+    for adt in NEW_EMPTY:
+        body = facts.inherent_method(adt, 'new')
+        if body is None:
+            continue
+        ctx.analysed.add(body.key)
+        short = adt.split('::')[-1] + '::new'
+        r = interp(facts, body).ret
+        ctx.check(_is_empty_ctor(r, 0, facts), short, body, 'the empty replica', '%s is %s, expected every field empty / default' % (short, fmt(drop_lv(r), 5)))
+    # List / into_iter, list::Op::id, GSet -> BTreeSet
+    b = facts.trait_impl_method(LIST, 'IntoIterator', 'into_iter')
+    if b is not None:
+        ctx.analysed.add(b.key)
+        r = drop_lv(interp(facts, b).ret)
+        base, k_, clo = iter_source(r)
+        ctx.check(param_path(base) == (1, ('seq',)) and k_ == 'values' and not clo and 'rev' not in set(iter_adaptors(r)), 'List::into_iter', b,
+                  'all values of seq in identifier order', 'List::into_iter is %s, expected self.seq.into_values()' % fmt(r, 5))
+    b = facts.inherent_method('crdts::list::Op', 'id')
+    if b is not None:
+        ctx.analysed.add(b.key)
+        alts = [versionless(a) for a in phi_alts(drop_lv(interp(facts, b).ret))]
+        want = {('field', ('param', 1), 'Insert.id'), ('field', ('param', 1), 'Delete.id')}
+        ctx.check(set(alts) == want, 'list::Op::id', b, 'the id of either variant', 'list::Op::id returns %s' % [fmt(a, 4) for a in alts])
